@@ -2,7 +2,7 @@
 import z3
 
 from pyvc import core
-from pyvc.api import O, unit
+from pyvc.api import O, bounded, unit
 from pyvc.core import SV, prove
 from pyvc.stubs import np as snp
 from pyvc.stubs import pint as spint
@@ -294,3 +294,11 @@ def unary(case):
         kk = core.rv(fractions.Fraction(k))
         prove("dim", SV(z3.And(*[x == y * kk for x, y in zip(dr, da)]), "b"))
     A.unchanged("a", sa)
+
+
+@bounded("C02", "native", "operators x operand kinds x {float64,float32,int64,int32} x 16 unit pairs (same, compatible, scaled "
+                         "dimensionless, incompatible incl. m vs m**2) x random broadcast shapes; pint as oracle")
+def native(tier, seed):
+    from pyvc import nativerun
+
+    return nativerun.run("contracts.native_arrays:sweep_c02", tier, seed)
